@@ -371,6 +371,9 @@ class Evaluator:
                 half = ("binop", "//", ("call", ("glob", "builtins.len"), (f[1][2][0],), (), 0), const(2))
                 if n0 == const(len(x[1]) // 2) or canon(n0) == canon(half):
                     return ("tuple", tuple(("tuple", x[1][i:i + 2]) for i in range(0, len(x[1]), 2)))
+        names = contracts.package_signature(self.pkg, f, self.fn.cls)
+        if names is not None:
+            args, kws = contracts.canonical_args(names, args, kws)
         base = ("call", f, args, kws, 0)
         key = canon(base)
         k = st.ordinals.get(key, 0)
